@@ -138,6 +138,44 @@ func (c02) Case(c *core.Ctx) {
 		c.Count("skipped:outside-domain")
 		return
 	}
+	// one case in eight: text runs split by a comment, an instruction, a CDATA boundary or a child element. What the first
+	// decode makes of such text is not what this property is about - whatever Map it returns must be a fixed point of
+	// encode + decode (the conservation comparison with the source tree is skipped for these documents).
+	split := r.Intn(8) == 0
+	if split {
+		words := []string{"true", "false", "1.5", "1e3", "0x1p-2", "10", "NaN", "-Inf", "TRUE", "12345678901234567890"}
+		root.Walk(func(e *xt.Node) {
+			for i, it := range e.Items {
+				if it.Kind != xt.KText || r.Intn(2) != 0 {
+					continue
+				}
+				t := []rune(it.Text)
+				if cfg.Cast && r.Intn(2) == 0 {
+					t = []rune(words[r.Intn(len(words))]) // pieces that are castable only when joined
+				}
+				if len(t) < 2 || strings.Contains(string(t), "]") {
+					continue // (a piece ending in "]]" followed by a piece starting with ">" would need the renderer's cross-piece escaping)
+				}
+				cut := 1 + r.Intn(len(t)-1)
+				a, b := xt.Item{Kind: xt.KText, Text: string(t[:cut])}, xt.Item{Kind: xt.KText, Text: string(t[cut:])}
+				rest := append([]xt.Item{}, e.Items[i+1:]...)
+				head := append([]xt.Item{}, e.Items[:i]...)
+				switch r.Intn(4) {
+				case 0:
+					e.Items = append(append(head, a, xt.Item{Kind: xt.KComment, Text: " c "}, b), rest...)
+				case 1:
+					e.Items = append(append(head, a, xt.Item{Kind: xt.KPI, Target: "pi", Text: "x"}, b), rest...)
+				case 2:
+					e.Items = append(append(head, a, b), rest...) // adjacent pieces: rendered as CDATA / escaped text independently
+				default:
+					// first piece where it was, second piece after everything else (text on both sides of the children)
+					e.Items = append(append(head, a), append(rest, b)...)
+				}
+				c.Count("feature:split-text-run")
+				break
+			}
+		})
+	}
 	doc := append([]byte(xt.Prolog(r)), xt.Render(r, root, xt.Style{KeepSpaces: cfg.KeepSpaces})...)
 	indent := []string{"  ", " ", "\t", "    ", "\t\t", ""}[r.Intn(6)]
 	prefix := []string{"", "", " ", "\t"}[r.Intn(4)]
@@ -149,6 +187,7 @@ func (c02) Case(c *core.Ctx) {
 	mxj.XMLEscapeChars(!cfg.DecEsc)
 	defer ResetDefaults()
 	c.Eval()
+	failedCalls(c, 8)
 	f := root.Features()
 	if f.Interleaved {
 		c.Count("feature:interleaved")
@@ -223,7 +262,7 @@ func (c02) Case(c *core.Ctx) {
 			c.Violate("c02-illformed", enc+" output could not be parsed by the observer", d)
 			continue
 		}
-		if oc := cfg.canonOut(out); oc != srcCanon {
+		if oc := cfg.canonOut(out); oc != srcCanon && !split {
 			d["source_canon"], d["output_canon"] = srcCanon, oc
 			c.Violate("c02-conservation", enc+": an element, attribute, value or list membership was lost, duplicated or moved", d)
 		}
